@@ -41,10 +41,14 @@ Definition scan_lines (k : nat) (ls : list cline) : scan :=
   | None => ScErr
   end.
 
-(* the file the tail scan reads: the mr sidecar as found, or (absent) the one built from the full sidecar's lines —
-   nothing is written when the full sidecar holds no message / run_ended frame.  None = Err *)
+(* a zero-length derived sidecar is a lost sidecar, not the history of a thread without such frames
+   (derived_sidecar_holds_data; S4c, fixed in /repo): the ensure_* functions treat it as absent *)
+Definition seen (f : cfile) : cfile := match f with Some [] => None | _ => f end.
+
+(* the file the tail scan reads: the mr sidecar as found, or (absent / zero-length) the one built from the full
+   sidecar's lines — nothing is written when the full sidecar holds no message / run_ended frame.  None = Err *)
 Definition mr_effective (mr full : cfile) : option cfile :=
-  match mr with
+  match seen mr with
   | Some ls => Some (Some ls)
   | None =>
     match full with
@@ -133,12 +137,13 @@ Definition compile_fast (r : tail_count) (P : params) (texts : N -> N) (ks : lis
    file whose lines all parse is not a suffix of the projection of the truth stream, or the whole file parses and is
    not the whole projection.  A file with unparsable lines anywhere, a torn last line, a zero-length file on a thread
    without messages are all OUTSIDE K2m (faithful); a file re-created by an append after its loss is inside.
-   When the file is absent: a full sidecar whose every line parses is the truth stream (as for the checkpoint sidecar). *)
+   When the file is absent or zero-length: a full sidecar whose every line parses is the truth stream (as for the
+   checkpoint sidecar). *)
 Definition MrFileFaithful (l : log) (ls : list cline) : Prop :=
   forall p sfx evs, ls = p ++ sfx -> all_good_c sfx = Some evs ->
     exists pre, filter mr_keep l = pre ++ evs /\ (p = [] -> pre = []).
 Definition MrFaithful (l : log) (mr full : cfile) : Prop :=
-  match mr with
+  match seen mr with
   | Some ls => MrFileFaithful l ls
   | None => match full with
             | None => True
@@ -166,7 +171,7 @@ Definition WindowSpec (limit : nat) (l : log) (a : N) (window : option (log * N)
 (* ensure_compaction_checkpoints_sidecar_best_effort_v1: as found, or built from the full sidecar's checkpoint lines
    (nothing written when there is none).  None = Err *)
 Definition comp_effective (comp full : cfile) : option cfile :=
-  match comp with
+  match seen comp with
   | Some ls => Some (Some ls)
   | None =>
     match full with
@@ -322,7 +327,7 @@ Definition compile_cached (r : tail_count) (P : params) (texts : N -> N) (ks : l
 (* K2 for the compiler's look-ups: a checkpoint sidecar whose every line parses is the projection (absent: a full sidecar
    whose every line parses is the truth stream); an index that loads is the projection *)
 Definition CompFaithfulC (l : log) (comp full : cfile) : Prop :=
-  match comp with
+  match seen comp with
   | Some ls => forall fs, all_good_c ls = Some fs -> fs = filter is_ckpt l
   | None => match full with
             | None => True
